@@ -38,6 +38,10 @@ func genLayoutTree(c *core.Ctx, cfgIdx int) layoutCase {
 	if withAcc {
 		body = append(append([]model.Stmt{model.Assign{Name: "acc", E: model.Lit{V: model.Int(0)}}}, body...), model.Text{S: " acc="}, model.Print{E: model.Var{Name: "acc"}})
 	}
+	if r.Intn(3) == 0 {
+		// text with percent signs (style rules, discounts): it is text whichever entry point writes the page
+		body = append([]model.Stmt{model.Text{S: "<style>main { width: 100%; margin: 5%d }</style>50% off %s %v%%"}}, body...)
+	}
 	t.files[layoutName] = body
 	lc := layoutCase{tree: t, data: g.data, layout: layoutName, reserves: reserves}
 	nPages := 1 + r.Intn(3)
@@ -169,6 +173,15 @@ func init() {
 							if why := compare(exp, got, false, nil); why != "" {
 								c.Violation("layout-render:"+scopeFailureClass(exp, got), why, map[string]any{"files": describeFiles(files), "page": page, "data": model.DescribeData(data), "expected": expectText(exp)})
 							}
+							// Response writes the same page
+							if !got.Failed() {
+								rec := newRecorder()
+								var rerr error
+								c.Eval(1)
+								if !c.Guard(func() { rerr = tpl.Response(rec, page, model.NativeData(data)) }) && (rerr != nil || rec.body.String() != got.Out) {
+									c.Violation("layout-render:response-differs", fmt.Sprintf("Response wrote %q (error %v), String gives %q", clipS(rec.body.String(), 300), rerr, clipS(got.Out, 300)), map[string]any{"files": describeFiles(files), "page": page, "data": model.DescribeData(data)})
+								}
+							}
 							c.Count("page_renders_compared", 1)
 						}
 					}
@@ -240,6 +253,20 @@ func init() {
 					if !got.Panicked && (got.Err != nil || got.Out != want.String()) {
 						c.Violation("many-reserves", fmt.Sprintf("the page rendered %s, want %q", clipS(got.Describe(), 600), clipS(want.String(), 600)), map[string]any{"files": describeFiles(files)})
 					}
+				}},
+				// pages of one loaded Template rendered one after the other without data: what the insert blocks and the layout
+				// of one render assigned is not there in the next
+				{Name: "data-less-renders-of-one-template", Exhaustive: true, N: 2, Run: func(c *core.Ctx, i int) {
+					if i == 0 {
+						judgeDataLessSequence(c, "c06nil", map[string]string{"layouts/l.tw": "<@reserve(\"b\")>", "a.tw": "@use(\"~l\")@insert(\"b\"){{ n = 1 }}{{ n }}@end", "b.tw": "@use(\"~l\")@insert(\"b\"){{ n = \"two\" }}{{ n }}@end",
+							"c.tw": "@use(\"~l\")@insert(\"b\")[{{ n }}]@end", "d.tw": "@use(\"~l\")@insert(\"b\", n)"},
+							[]dataLessStep{{"a", "<1>", false}, {"b", "<two>", false}, {"c", "", true}, {"d", "", true}, {"a", "<1>", false}}, "data-less")
+						return
+					}
+					judgeDataLessSequence(c, "c06nil", map[string]string{"layouts/l.tw": "{{ count = 0 }}<@reserve(\"head\")|@reserve(\"b\")>{{ count }}", "layouts/m.tw": "<@reserve(\"b\")>{{ count }}",
+						"a.tw": "@use(\"~l\")@insert(\"head\"){{ count = count + 1 }}{{ title = \"A\" }}h@end@insert(\"b\"){{ count = count + 10 }}{{ title }}@end", "b.tw": "@use(\"~l\")@insert(\"b\"){{ title = 7 }}{{ title }}@end",
+						"c.tw": "@use(\"~m\")@insert(\"b\", \"x\")", "d.tw": "@use(\"~l\")@insert(\"b\", title)"},
+						[]dataLessStep{{"a", "<h|A>11", false}, {"b", "<|7>0", false}, {"c", "", true}, {"d", "", true}, {"a", "<h|A>11", false}, {"b", "<|7>0", false}}, "data-less")
 				}},
 				{Name: "fault-trees", N: nf, Run: func(c *core.Ctx, i int) {
 					lc := genLayoutTree(c, i)
